@@ -18,9 +18,7 @@ NA = {
  "C20": "the predicates' verdicts and proposals are pure functions of their arguments (the single random draw, the number a negated count proposes, does not enter the stated relation).",
 }
 PENDING = {
- "C19": "not claimed yet: the clisim engine (in-process CLI under storage faults) is under construction; the property is applicable to this technique (DESIGN.md 5 C19).",
  "C21": "not claimed yet: the formsim engine (shipped formalizations + independent domain validators) is under construction; applicable (DESIGN.md 5 C21).",
- "C22": "not claimed yet: the reprosim engine (fresh interpreters under perturbation schedules) is under construction; applicable (DESIGN.md 5 C22).",
 }
 
 def chk(pid, engine, text, note, technique, design_ref):
@@ -50,6 +48,15 @@ ENGINES = [
  {"name": "solversim", "path": "engines/solversim.py", "serves_properties": ["C01", "C02", "C18", "C12", "C14"], "kind_free_text": "fork-per-run simulation of ISLaSolver objects under virtual clock, seeded PRNG, Z3 seam and cost-order seam; two-phase fault placement"},
  {"name": "choicesim", "path": "engines/choicesim.py", "serves_properties": ["C12", "C14"], "kind_free_text": "PRNG-strategy driven fuzzer / mutator / build-to-target helpers"},
  {"name": "treesim", "path": "engines/treesim.py", "serves_properties": ["C16", "C17"], "kind_free_text": "Hypothesis stateful operation histories on DerivationTree/SMTFormula against a reference model"},
+]
+
+CHECKS += [
+ chk("C19", "clisim", "The isla command line in-process inside a per-run sandbox directory under the clock / PRNG / Z3 seams and a storage-fault layer that damages files between the write and the command that reads them (empty, torn, lost, directory, garbage bytes, NUL, BOM, CRLF, extra newlines, duplicate input). Oracle over the recorded command history on the bytes actually on disk: check/parse/find exit codes against Oracle-G/S, every solve output is in the language, satisfies the conjunction of all constraints and is accepted by a following check, parse output accepted by check, malformed-by-construction specs -> 65 + message, usage errors -> 2, any exception escaping main other than SystemExit is a traceback.", TB + " The process boundary is stubbed (in-process main).", "deterministic simulation with fault injection (storage, Z3, clock faults between/inside CLI commands), history oracle over recorded command sessions", "DESIGN.md 5 C19"),
+ chk("C22", "reprosim", "For a scenario, hash seed and random seed, 2-3 fresh interpreters run the user's program (random.seed; ISLaSolver; solve() k times), each under a different perturbation schedule of what must not matter (heap ballast shifting every address/id, GC mode, import order, epoch, cwd/HOME/COLUMNS/argv) with ASLR off so that a mismatch is itself reproducible; the same deterministic Z3 budget and optional Z3-unknown schedule apply to all children. Verdict: identical sequences of (string, tree shape).", TB + " Z3 wall-clock timeouts are replaced by the rlimit budget in every child.", "deterministic simulation: seeded perturbation schedules over fresh interpreters, sequence-equality oracle", "DESIGN.md 5 C22"),
+]
+ENGINES += [
+ {"name": "clisim", "path": "engines/clisim.py", "serves_properties": ["C19"], "kind_free_text": "in-process CLI sessions in a sandbox directory with storage / Z3 / clock faults"},
+ {"name": "reprosim", "path": "engines/reprosim.py", "serves_properties": ["C22"], "kind_free_text": "fresh interpreters under perturbation schedules (engines/reprochild.py)"},
 ]
 
 def main():
